@@ -7,8 +7,10 @@ package main
 import (
 	"fmt"
 	"go/constant"
+	"go/token"
 	"go/types"
 	"sort"
+	"strings"
 
 	"golang.org/x/tools/go/ssa"
 )
@@ -42,6 +44,7 @@ func (w *World) buildGlobals() {
 			}
 		}
 	}
+	stores := map[*ssa.Global]int{}
 	addW := func(l *[]*ssa.Function, f *ssa.Function) {
 		for _, x := range *l {
 			if x == f {
@@ -69,7 +72,8 @@ func (w *World) buildGlobals() {
 					case *ssa.Store:
 						if x.Addr == g {
 							addW(&gi.Writers, fn)
-							if fn.Synthetic == "package initializer" {
+							stores[g]++
+							if fn.Synthetic == "package initializer" || w.initTimeOnly(fn) {
 								gi.InitVal = x.Val
 							}
 						} else {
@@ -99,11 +103,14 @@ func (w *World) buildGlobals() {
 	for _, gi := range w.globals {
 		gi.InitOnly = len(gi.AddrEscapes) == 0
 		for _, f := range gi.Writers {
-			if f.Synthetic != "package initializer" {
+			// the package initialiser, or a function that runs only from it (an
+			// init function, a helper only they call, a literal run through
+			// sync.Once from there)
+			if f.Synthetic != "package initializer" && !w.initTimeOnly(f) {
 				gi.InitOnly = false
 			}
 		}
-		if len(gi.Writers) > 1 {
+		if len(gi.Writers) > 1 || stores[gi.G] > 1 {
 			gi.InitOnly = false
 		}
 	}
@@ -251,6 +258,93 @@ func (w *World) Globals() []*GlobalInfo {
 	return out
 }
 
+// initTimeOnly: fn runs only during package initialisation: the package
+// initialiser, an init function, an unexported function all of whose callers
+// are such, or a function literal that only such a parent runs (directly or
+// through sync.Once).
+func (w *World) initTimeOnly(fn *ssa.Function) bool {
+	if w.initTime == nil {
+		w.initTime = map[*ssa.Function]int{}
+	}
+	switch w.initTime[fn] {
+	case 1:
+		return true
+	case 2, 3:
+		return false // decided no, or in progress (a cycle is not init-only)
+	}
+	w.initTime[fn] = 3
+	res := false
+	switch {
+	case fn.Synthetic == "package initializer":
+		res = true
+	case fn.Synthetic == "" && fn.Parent() == nil && (fn.Name() == "init" || strings.HasPrefix(fn.Name(), "init#")):
+		res = true
+	case fn.Parent() != nil:
+		res = onlyRunByParent(fn.Parent(), fn) && w.initTimeOnly(fn.Parent())
+	case fn.Object() != nil && !fn.Object().Exported() && !w.addressTaken()[fn]:
+		node := w.CallGraph().Nodes[fn]
+		if node != nil && len(node.In) > 0 {
+			res = true
+			for _, in := range node.In {
+				if in.Site == nil || in.Site.Common().StaticCallee() != fn {
+					continue // a CHA edge of a dynamic call: fn's address is not taken
+				}
+				if !w.initTimeOnly(in.Caller.Func) {
+					res = false
+				}
+			}
+		}
+	}
+	if res {
+		w.initTime[fn] = 1
+	} else {
+		w.initTime[fn] = 2
+	}
+	return res
+}
+
+// nilFuncVar: g is a package-level variable of function type that nothing in
+// the repository ever assigns and whose address is never taken (a hook that is
+// nil unless a test sets it): every read yields nil.
+func (w *World) nilFuncVar(g *ssa.Global) bool {
+	if w.nilFuncVars == nil {
+		w.nilFuncVars = map[*ssa.Global]bool{}
+		cand := map[*ssa.Global]bool{}
+		for _, pkg := range []*ssa.Package{w.Root, w.Enc} {
+			for _, m := range pkg.Members {
+				if gv, ok := m.(*ssa.Global); ok {
+					if _, isSig := gv.Type().(*types.Pointer).Elem().Underlying().(*types.Signature); isSig && !gv.Object().Exported() {
+						cand[gv] = true
+					}
+				}
+			}
+		}
+		for fn := range w.AllFuncs {
+			if !w.InRepo(fn) {
+				continue
+			}
+			for _, b := range fn.Blocks {
+				for _, in := range b.Instrs {
+					for _, op := range in.Operands(nil) {
+						gv, ok := (*op).(*ssa.Global)
+						if !ok || !cand[gv] {
+							continue
+						}
+						if ld, isLd := in.(*ssa.UnOp); isLd && ld.Op == token.MUL && ld.X == ssa.Value(gv) {
+							continue // a read
+						}
+						delete(cand, gv) // stored to, or its address used otherwise
+					}
+				}
+			}
+		}
+		for gv := range cand {
+			w.nilFuncVars[gv] = true
+		}
+	}
+	return w.nilFuncVars[g]
+}
+
 // BaseMem: constant contents of package-level arrays / slices / structs that
 // are written only by the package initialiser (tables). Keys are abstract
 // locations of the engine ("G:pkg.name|[i].field").
@@ -270,6 +364,11 @@ func (w *World) BaseMem() map[string]AV {
 		}
 	}
 	for _, pkg := range []*ssa.Package{w.Root, w.Enc} {
+		for _, m := range pkg.Members {
+			if gv, ok := m.(*ssa.Global); ok && w.nilFuncVar(gv) {
+				w.baseMem["G:"+globalName(gv)] = AV{Kind: KNil}
+			}
+		}
 		init := pkg.Func("init")
 		if init == nil {
 			continue
